@@ -198,9 +198,12 @@ pub fn run_batch(p: &dyn Property, cfg: &BatchCfg) -> i32 {
     });
     // chunking only amortises the atomic counter; results are merged by run index, never by worker
     let chunk: u64 = (n_runs / (cfg.workers as u64 * 8)).clamp(1, 64);
+    let heartbeat = crate::supervisor::Heartbeat::open();
+    let worker_ids = AtomicU64::new(0);
     std::thread::scope(|s| {
         for _ in 0..cfg.workers {
             s.spawn(|| {
+                let wid = worker_ids.fetch_add(1, Ordering::Relaxed) as usize;
                 let mut local = Merged {
                     evaluations: 0,
                     counters: BTreeMap::new(),
@@ -221,6 +224,7 @@ pub fn run_batch(p: &dyn Property, cfg: &BatchCfg) -> i32 {
                     }
                     let hi = (lo + chunk).min(n_runs);
                     for i in lo..hi {
+                        heartbeat.beat(wid, i);
                         let (_case, r) = run_one(p, cfg.seed, i, cfg.tier);
                         local.evaluations += 1;
                         let mut rd = Digest::default();
@@ -255,6 +259,7 @@ pub fn run_batch(p: &dyn Property, cfg: &BatchCfg) -> i32 {
                         truncated_at.fetch_min(hi, Ordering::Relaxed);
                     }
                 }
+                heartbeat.idle(wid);
                 let mut m = merged.lock().unwrap();
                 m.evaluations += local.evaluations;
                 for (k, v) in local.counters {
